@@ -2,7 +2,7 @@
 
    Model: Model/ConfigId.v (hand model of bec2format/configid.py: constructor, both
    factories, __str__/cfgid_str, create_from_str, __eq__).  UNKNOWN, the two re.match
-   patterns and the three format strings are generated from the source
+   patterns and the format strings (data) are generated from the source
    (Gen/ConfigIdConsts.v) and tied to the hand-written matcher/printer by C12_source_tie.
 
    Text = list of code points.  The model's digit class is ASCII 0-9, which is exactly
@@ -22,15 +22,15 @@ From Bec2 Require Import Base.Result Base.Bytes Gen.ConfigIdConsts Model.ConfigI
 Import ListNotations.
 Open Scope N_scope.
 
-(* The strings implemented by the hand-written matcher and printer (rendered from the
-   model's field widths 5/4/4/2, separator '-', literal " (version ", ')') are the pattern
-   and format strings found in the source; UNKNOWN is 9999; the match groups feeding the
-   constructor are 1,2,3,4,6 and (None,None,None),2,1. *)
+(* DATA tie.  The strings implemented by the hand-written matcher and printer (rendered from
+   the model's field widths 5/4/4/2, separator '-', literal " (version ", ')') are the two
+   patterns passed to re.match in create_from_str (in source order) and the string constants
+   of cfgid_str (two formats) and __str__ ("", " ", name-only format); UNKNOWN is 9999.
+   The CODE (control flow, which group feeds which field) is tied by the correspondence. *)
 Theorem C12_source_tie :
   CFGID_PATTERN_NUMERIC = model_pattern_numeric /\ CFGID_PATTERN_NAMEONLY = model_pattern_nameonly /\
-  CFGID_FMT_FULL = model_fmt_full /\ CFGID_FMT_DEVSETTINGS = model_fmt_devsettings /\
-  CFGID_FMT_NAMEONLY = model_fmt_nameonly /\ CFGID_NAME_SEP = [32] /\ CFGID_UNKNOWN = 9999 /\
-  CFGID_GROUPS_NUMERIC = model_groups_numeric /\ CFGID_GROUPS_NAMEONLY = model_groups_nameonly.
+  CFGID_CFGIDSTR_STRINGS = [model_fmt_devsettings; model_fmt_full] /\
+  CFGID_STR_STRINGS = [[]; [32]; model_fmt_nameonly] /\ CFGID_UNKNOWN = 9999.
 Proof. repeat split. Qed.
 Print Assumptions C12_source_tie.
 
